@@ -21,7 +21,8 @@ def describe(tier):
                 "[fc](sub);  at every sub-expression  ((sub));  at every U/O/X node the operand swap;  each transformed expression x ALL 3^k "
                 "assignments; plus for every assignment with UNKNOWN whose outcome is definite all 2^u refinements. Oracle (implementation vs "
                 "itself): the transformed expression raises nothing and has the same state / (fulfilled) as the base; refinements keep the "
-                "definite outcome; for bases with 4 leaves and distinct keys (quick tier) the refinement relation only. In addition the transformed expressions mix operator spellings (letter vs symbol), so that 'redundant "
+                "definite outcome; the hint transformations (the added hint carrying an EMPTY text) also through the library's shipped "
+                "evaluators for bases with <= 2 leaves; for bases with 4 leaves and distinct keys (quick tier) the refinement relation only. In addition the transformed expressions mix operator spellings (letter vs symbol), so that 'redundant "
                 "brackets' is meant with respect to the documented precedence. Non-trivial = (transformed expression, assignment) pairs "
                 "with >= 2 leaves in the base.",
         "bounds": {"sizes": BOUNDS[tier]},
@@ -36,6 +37,10 @@ def plan(tier, seed):
         # one size beyond the full transformation bound: UNKNOWN refinement only (no extra expressions to parse), distinct keys
         for p in range(64):
             items.append({"n": 4, "lab": "distinct", "part": p, "parts": 64, "seed": seed, "only": ["refine"]})
+    # hint neutrality through the evaluators / providers the library ships; the added hint has an EMPTY text (legal)
+    for mode in ("hardcoded", "cer", "methods"):
+        for n in (1, 2) if tier == "quick" else (1, 2, 3):
+            items.append({"fam": "modes", "mode": mode, "n": n, "seed": seed})
     for n, lab in BOUNDS[tier]:
         parts = {1: 1, 2: 4, 3: 48, 4: 768}[n]
         for p in range(parts):
@@ -157,10 +162,66 @@ def check_base(base_ast, seed, only=None, names=None):
     return out, n_pairs
 
 
+def check_base_mode(base_ast, seed, mode):
+    """and-ing a hint (with empty text) onto the whole expression / any operand, evaluated through `mode`"""
+    from mc import impl_modes as M
+
+    I = X.init()
+    pools = X.pools(seed)
+    spell, sp = X.spelling(seed), X.spacing(seed)
+    out = []
+    rckeys = A.keys_of(base_ast, "rc")
+    n = 0
+
+    def states(ast):
+        expr = _render(ast, spell, sp)
+        hk = A.keys_of(ast, "hint")
+        res = {}
+        for a in X.assignments(rckeys):
+            r = I.try_call(lambda: M.run(mode, lambda: I.requirement_constraint_evaluation(expr), rc=a,
+                                         fc={k: (True, None) for k in A.keys_of(ast, "fc")},
+                                         hints={k: ("" if k == pools["hint"][5] else f"Hinweis {k}") for k in hk}))
+            res[tuple(a[k] for k in rckeys)] = r[1].requirement_constraints_fulfilled if r[0] == "ok" else "exc:" + r[1]
+        return expr, res
+
+    bexpr, base = states(base_ast)
+    for name, path, tast in transformations(base_ast, pools):
+        if name not in ("hint-left", "hint-right"):
+            continue
+        texpr, got = states(tast)
+        n += len(got)
+        for av in base:
+            if got[av] != base[av]:
+                out.append({"kind": f"changed-by/{name}/{mode}", "case": {"ast": base_ast, "seed": seed, "t": [name, list(path)], "mode": mode,
+                                                                        "assign": dict(zip(rckeys, av))},
+                            "expected": base[av], "observed": got[av], "msg": f"{bexpr} -> {texpr} through the {mode} evaluators"})
+                break
+    return out, n
+
+
 def run_item(item):
     X.init()
     r = Result()
     pools = X.pools(item["seed"])
+    if item.get("fam") == "modes":
+        from mc import impl_modes as M
+
+        try:
+            for ast in A.asts(item["n"], "all", pools={k: v[:5] for k, v in pools.items()}):
+                if not A.is_valid(ast):
+                    continue
+                vs, n = check_base_mode(ast, item["seed"], item["mode"])
+                r.evaluations += n
+                r.states += n
+                r.transitions += n
+                r.traces += 1
+                r.nontrivial += n
+                for v in vs:
+                    r.violation(v["kind"], v["case"], v["expected"], v["observed"], v["msg"])
+                r.sample({"base": X.render(ast, item["seed"]), "mode": item["mode"]})
+        finally:
+            M.restore()
+        return r
     i = -1
     for ast in A.asts(item["n"], item["lab"], pools={k: v[:5] for k, v in pools.items()}):
         if not A.is_valid(ast):
@@ -188,4 +249,11 @@ def _tup(x):
 
 def replay(case):
     ast = _tup(case["ast"])
+    if case.get("mode"):
+        from mc import impl_modes as M
+
+        try:
+            return [v for v in check_base_mode(ast, case["seed"], case["mode"])[0] if v["case"]["t"] == case["t"]]
+        finally:
+            M.restore()
     return check_base(ast, case["seed"], only=(case["t"][0], case["t"][1]))[0]
